@@ -221,6 +221,14 @@ def h_roundtrip(idx: int, other: int, retries: int, success: bool, has_delayed: 
         ok = False
     if kind == 'status' and purged.get('status') != before.get('status'):
         ok = False
+    # ... also when the same record is purged repeatedly into one patch (a superseded cause purges, the cycle's end purges again)
+    for times in (2, 3):
+        pn = patches.Patch()
+        for _ in range(times):
+            st.purge(key=IDS[idx], body=bodies.Body(stored), patch=pn)
+        again = rfc7386(stored, dict(pn))
+        if again != purged:
+            ok = False
     vkopf.witness('roundtrip')
     return vkopf.verdict(ok)
 
